@@ -24,7 +24,7 @@ package runningstatus
 
 // the reader side: cleared by FF, F0, F7 only; set by a channel status byte; kept across data bytes
 //@ func (*smfreader).Read
-//@ modifies r.reader.status
+//@ modifies *r
 //@ ensures [P:C02] (canary == 0xFF || canary == 0xF0 || canary == 0xF7) ==> (status == 0 && changed && r.reader.status == 0)
 //@ ensures [P:C02] (canary >= 0x80 && canary <= 0xEF) ==> (status == canary && changed && r.reader.status == canary)
 //@ ensures [P:C02] !(canary == 0xFF || canary == 0xF0 || canary == 0xF7 || (canary >= 0x80 && canary <= 0xEF)) ==> (status == old(r.reader.status) && !changed && r.reader.status == old(r.reader.status))
